@@ -169,7 +169,8 @@ def run(ctx):
             if '"e":"End"' not in tail and '"e":"Abort"' not in tail:
                 raise lib.ModelFailure("trace %s is truncated (driver died outside a recorded call)" % t)
         missing = [k for k in RUN_KINDS if k not in seen["kinds"]]
-        if (missing or not {1, 2, 3, 4} <= seen["N"] or len(seen["prior"]) < 5 or len(seen["parse"]) < 2 or len(seen["filter"]) < 3
+        # (a crash inside the code under test ends the trace with an Abort line, which is a VIOLATION: coverage is then moot)
+        if not ctx.violations and (missing or not {1, 2, 3, 4} <= seen["N"] or len(seen["prior"]) < 5 or len(seen["parse"]) < 2 or len(seen["filter"]) < 3
                 or len(seen["additive"]) < 2 or len(seen["ubound"]) < 2 or len(seen["exact"]) < 2
                 or not any(c[0] for c in seen["clamp"]) or not any(c[1] for c in seen["clamp"])
                 # prior + voxel of zero sensitivity + run started at a sub-iteration > 1: free (resume) and exact (single)
